@@ -500,7 +500,7 @@ def jobs_saveload(tier, seed):
 
 
 def kf_match(case):
-    if case.get("how") == "shape" and sum(case["lens"]) != len(case["data"]):
+    if case.get("how") == "shape" and "lens" in case and "data" in case and sum(case["lens"]) != len(case["data"]):
         return ["KF-C01-1"]
     return []
 
